@@ -280,7 +280,9 @@ Definition seed (p : pspec) (struct_orient : bool) : res (layout * cgraph) :=
         do g <- rg;
         match afind (l_tstart lay) n with
         | Some s => items_links lay p items 0 (fun o => s + o) g
-        | None => if struct_orient then Err "strand-not-in-structure" else Err "internal" end) (p_strands p) (OK g7);
+        | None => (* the index of a strand is only looked up position by position: a strand without nucleotides needs none *)
+                  if forallb (fun it => Nat.eqb (sref_len p it) 0) items then OK g
+                  else if struct_orient then Err "strand-not-in-structure" else Err "internal" end) (p_strands p) (OK g7);
   OK (lay, g8).
 
 (* adjacency as propagate_constraints sees it (both directions were appended by add_eq / add_wc) *)
